@@ -42,6 +42,7 @@ func GetApparmorLogs(file io.Reader, profile string) []string {
 	}
 
 	scanner := bufio.NewScanner(file)
+	scanner.Buffer(make([]byte, 0, bufio.MaxScanTokenSize), 64*1024*1024)
 	for scanner.Scan() {
 		line := scanner.Text()
 		if isAppArmorLog.MatchString(line) {
